@@ -820,3 +820,408 @@ def tree_model(img):
 
 def padding_ok(img, devblk=4096):
     return len(img.data) % devblk == 0 and len(img.data) - img.sb["bytes_used"] < devblk and len(img.data) >= img.sb["bytes_used"]
+
+
+# ====================================================================== writer
+# Builds small images directly from a gentree-style model with *uncompressed* metadata and records the
+# file offset of every on-disk field, so that hostile images are made by patching fields of a valid image.
+
+class FieldMap:
+    def __init__(self):
+        self.fields = []          # (name, file_offset, size)
+
+    def add(self, name, off, size):
+        self.fields.append((name, off, size))
+
+
+class _MetaStream:
+    """Uncompressed metadata stream: 8 KiB chunks, each preceded by a 0x8000|len header."""
+
+    def __init__(self):
+        self.buf = bytearray()
+        self.marks = []           # (name, stream offset, size)
+
+    def tell(self):
+        return len(self.buf)
+
+    def put(self, fmt, names, *vals):
+        """struct.pack with per-field marks.  names: list parallel to the fields of fmt."""
+        off = len(self.buf)
+        data = struct.pack("<" + fmt, *vals)
+        pos = off
+        for ch, nm in zip(fmt, names):
+            sz = struct.calcsize("<" + ch)
+            if nm:
+                self.marks.append((nm, pos, sz))
+            pos += sz
+        self.buf += data
+        return off
+
+    def raw(self, data, name=None):
+        off = len(self.buf)
+        if name:
+            self.marks.append((name, off, len(data)))
+        self.buf += data
+        return off
+
+    @staticmethod
+    def ref(stream_off):
+        return ((stream_off // META) * (META + 2)) << 16 | (stream_off % META)
+
+    def serialise(self):
+        out = bytearray()
+        for i in range(0, len(self.buf), META):
+            chunk = self.buf[i:i + META]
+            out += struct.pack("<H", 0x8000 | len(chunk)) + chunk
+        return bytes(out)
+
+    def file_offset(self, base, stream_off):
+        return base + (stream_off // META) * (META + 2) + 2 + stream_off % META
+
+    def export_marks(self, base, fmap, prefix):
+        for nm, off, sz in self.marks:
+            # skip fields that straddle a block boundary
+            if off // META != (off + sz - 1) // META:
+                continue
+            fmap.add(prefix + nm, self.file_offset(base, off), sz)
+        # the block headers themselves
+        for i in range(0, len(self.buf), META):
+            fmap.add(prefix + "blockhdr@%d" % (i // META), base + (i // META) * (META + 2), 2)
+
+
+def build_image(tree, block_size=4096, comp=1, use_frags=True, exportable=True, compress_data=False, with_index=False,
+                mod_time=0, dev_pad=4096, inode_order=None, extra=None, raw_names=None, entry_shuffle=None, entry_ref_override=None):
+    """Returns (bytes, FieldMap, info).  tree: path -> gentree.Node ('' = root)."""
+    from . import gentree
+    bs = block_size
+    fmap = FieldMap()
+    paths = gentree.sort_paths(list(tree))
+    if b"" not in tree:
+        raise ValueError("no root")
+    # children lists
+    kids = {p: [] for p in tree if tree[p].type == "dir"}
+    for p in paths:
+        if p == b"":
+            continue
+        par = p.rsplit(b"/", 1)[0] if b"/" in p else b""
+        kids[par].append(p)
+    # inodes: hard links share
+    primary = {p: (tree[p].link_to if tree[p].link_to is not None else p) for p in tree}
+    inodes = [p for p in paths if primary[p] == p]
+    # numbering: children first (post order), root last
+    order = []
+
+    def visit(p):
+        if tree[p].type == "dir":
+            for c in sorted(kids[p], key=lambda q: q.rsplit(b"/", 1)[-1]):
+                if primary[c] == c:
+                    visit(c)
+        order.append(p)
+    visit(b"")
+    for p in inodes:
+        if p not in order:
+            order.append(p)
+    number = {p: i + 1 for i, p in enumerate(order)}
+    nlink = {p: 0 for p in inodes}
+    for p in tree:
+        if p:
+            nlink[primary[p]] += 1
+    # ids
+    ids = []
+    for p in inodes:
+        for v in (tree[p].uid, tree[p].gid):
+            if v not in ids:
+                ids.append(v)
+    if not ids:
+        ids = [0]
+    # xattr sets
+    xsets = []
+    xidx = {}
+    for p in inodes:
+        x = tuple(sorted(tree[p].xattrs.items()))
+        if x:
+            if x not in xsets:
+                xsets.append(x)
+            xidx[p] = xsets.index(x)
+    # ---- data area
+    data = bytearray()
+    comp_opts = b""
+    if comp == 5:
+        comp_opts = struct.pack("<HII", 0x8000 | 8, 1, 0)
+    data_start = 96 + len(comp_opts)
+    raw_names = raw_names or {}
+    frag_blocks = []      # list of bytearray
+    finfo = {}
+    cur_frag = bytearray()
+    for p in inodes:
+        n = tree[p]
+        if n.type != "file":
+            continue
+        content = gentree.spec_bytes(n.data or [])
+        words = []
+        start = data_start + len(data)
+        nfull = len(content) // bs if use_frags else (len(content) + bs - 1) // bs
+        tail = content[nfull * bs:] if use_frags else b""
+        sparse = 0
+        for i in range(nfull):
+            blk = content[i * bs:(i + 1) * bs]
+            if not any(blk):
+                words.append(0)
+                sparse += len(blk)
+                continue
+            stored, w = blk, len(blk) | (1 << 24)
+            if compress_data:
+                c = compress(comp, blk)
+                if len(c) < len(blk):
+                    stored, w = c, len(c)
+            words.append(w)
+            data += stored
+        fi, fo = NOFRAG, 0
+        if tail:
+            if len(cur_frag) + len(tail) > bs:
+                frag_blocks.append(cur_frag)
+                cur_frag = bytearray()
+            fi, fo = len(frag_blocks), len(cur_frag)
+            cur_frag += tail
+        finfo[p] = (start, words, fi, fo, len(content), sparse)
+    if cur_frag:
+        frag_blocks.append(cur_frag)
+    frag_entries = []
+    for fb in frag_blocks:
+        frag_entries.append((data_start + len(data), len(fb) | (1 << 24)))
+        data += fb
+    # ---- inode sizes -> stream offsets
+    def dir_listing(p, inode_off):
+        """Serialise listing of dir p given inode stream offsets; returns bytes + header marks."""
+        ents = sorted(kids[p], key=lambda q: q.rsplit(b"/", 1)[-1])
+        if entry_shuffle is not None:
+            ents = entry_shuffle(p, ents)
+        out = _MetaStream()
+        i = 0
+        hdrs = []
+        while i < len(ents):
+            first = primary[ents[i]]
+            blk = inode_off[first] // META
+            refnum = number[first]
+            run = []
+            j = i
+            while j < len(ents) and len(run) < 256:
+                q = primary[ents[j]]
+                if inode_off[q] // META != blk or abs(number[q] - refnum) > 32767:
+                    break
+                run.append(ents[j])
+                j += 1
+            hdrs.append(out.tell())
+            out.put("III", ["count", "start", "inode_number"], len(run) - 1, blk * (META + 2), refnum)
+            for e in run:
+                q = primary[e]
+                nm = raw_names.get(e, e.rsplit(b"/", 1)[-1])
+                base_t = {"dir": 1, "file": 2, "slink": 3, "bdev": 4, "cdev": 5, "fifo": 6, "sock": 7}[tree[q].type]
+                out.put("HhHH", ["ent.offset", "ent.inode_delta", "ent.type", "ent.name_size"], inode_off[q] % META, number[q] - refnum, base_t, len(nm) - 1)
+                out.raw(nm, "ent.name")
+            i = j
+        return out, hdrs
+
+    def inode_size(p, listing_len=0):
+        n = tree[p]
+        has_x = p in xidx
+        if n.type == "dir":
+            ext = has_x or listing_len + 3 > 0xFFFF or with_index
+            return 16 + (24 if ext else 16), ext
+        if n.type == "file":
+            start, words, fi, fo, size, sparse = finfo[p]
+            ext = has_x or nlink[p] > 1 or sparse > 0 or size >= (1 << 32) or start >= (1 << 32)
+            return 16 + (40 if ext else 16) + 4 * len(words), ext
+        if n.type == "slink":
+            return 16 + 8 + len(n.target) + (4 if has_x else 0), has_x
+        if n.type in ("bdev", "cdev"):
+            return 16 + 8 + (4 if has_x else 0), has_x
+        return 16 + 4 + (4 if has_x else 0), has_x
+
+    # listing length does not depend on offsets except for header splits; iterate to a fixed point
+    inode_off = {}
+    listing_len = {p: 0 for p in kids}
+    for _ in range(6):
+        off = 0
+        for p in order:
+            inode_off[p] = off
+            sz, _ext = inode_size(p, listing_len.get(p, 0))
+            if tree[p].type == "dir" and with_index:
+                pass
+            off += sz
+        new = {p: dir_listing(p, inode_off)[0].tell() for p in kids}
+        if new == listing_len:
+            break
+        listing_len = new
+    # ---- directory table
+    dstream = _MetaStream()
+    dir_pos = {}
+    for p in order:
+        if tree[p].type != "dir":
+            continue
+        ls, hdrs = dir_listing(p, inode_off)
+        dir_pos[p] = dstream.tell()
+        base = dstream.tell()
+        for nm, o, s in ls.marks:
+            dstream.marks.append(("dir[%s]." % _nm(p) + nm + "@%d" % o, base + o, s))
+        dstream.buf += ls.buf
+    # ---- inode table
+    istream = _MetaStream()
+    for p in order:
+        n = tree[p]
+        assert istream.tell() == inode_off[p], (p, istream.tell(), inode_off[p])
+        sz, ext = inode_size(p, listing_len.get(p, 0))
+        base_t = {"dir": 1, "file": 2, "slink": 3, "bdev": 4, "cdev": 5, "fifo": 6, "sock": 7}[n.type]
+        t = base_t + 7 if ext else base_t
+        pre = "inode[%s]." % _nm(p)
+        mode = (n.mode & 0o7777) | S_IFMT[base_t]
+        istream.put("HHHHII", [pre + "type", pre + "mode", pre + "uid_idx", pre + "gid_idx", pre + "mtime", pre + "number"],
+                    t, mode, ids.index(n.uid), ids.index(n.gid), min(max(n.mtime or 0, 0), 0xFFFFFFFF), number[p])
+        xi = xidx.get(p, NOXATTR)
+        if n.type == "dir":
+            par = p.rsplit(b"/", 1)[0] if b"/" in p else b""
+            parent_num = number[par] if p else len(order) + 1
+            size = listing_len[p] + 3 if listing_len[p] else 3
+            dp = dir_pos[p]
+            links = 2 + len(kids[p])
+            if ext:
+                istream.put("IIIIHHI", [pre + "nlink", pre + "size", pre + "dir_block", pre + "parent", pre + "index_count", pre + "dir_offset", pre + "xattr"],
+                            links, size, (dp // META) * (META + 2), parent_num, 0, dp % META, xi)
+            else:
+                istream.put("IIHHI", [pre + "dir_block", pre + "nlink", pre + "size", pre + "dir_offset", pre + "parent"],
+                            (dp // META) * (META + 2), links, size, dp % META, parent_num)
+        elif n.type == "file":
+            start, words, fi, fo, size, sparse = finfo[p]
+            if ext:
+                istream.put("QQQIIII", [pre + "blocks_start", pre + "size", pre + "sparse", pre + "nlink", pre + "frag_idx", pre + "frag_off", pre + "xattr"],
+                            start, size, sparse, nlink[p], fi, fo, xi)
+            else:
+                istream.put("IIII", [pre + "blocks_start", pre + "frag_idx", pre + "frag_off", pre + "size"], start, fi, fo, size)
+            for k, w in enumerate(words):
+                istream.put("I", [pre + "blockword%d" % k], w)
+        elif n.type == "slink":
+            istream.put("II", [pre + "nlink", pre + "target_size"], nlink[p], len(n.target))
+            istream.raw(n.target, pre + "target")
+            if ext:
+                istream.put("I", [pre + "xattr"], xi)
+        elif n.type in ("bdev", "cdev"):
+            istream.put("II", [pre + "nlink", pre + "devno"], nlink[p], gentree.devno(*n.dev))
+            if ext:
+                istream.put("I", [pre + "xattr"], xi)
+        else:
+            istream.put("I", [pre + "nlink"], nlink[p])
+            if ext:
+                istream.put("I", [pre + "xattr"], xi)
+    # ---- assemble
+    img = bytearray(96)
+    img += comp_opts
+    img += data
+    inode_table = len(img)
+    img += istream.serialise()
+    dir_table = len(img)
+    img += dstream.serialise()
+    istream.export_marks(inode_table, fmap, "")
+    dstream.export_marks(dir_table, fmap, "")
+
+    def lookup_table(raw, name, entsz):
+        s = _MetaStream()
+        for i in range(0, len(raw), entsz):
+            s.raw(raw[i:i + entsz], "%s[%d]" % (name, i // entsz))
+        start = len(img)
+        ser = s.serialise()
+        img.extend(ser)
+        s.export_marks(start, fmap, "")
+        loc = len(img)
+        nblk = (len(raw) + META - 1) // META
+        for b in range(nblk):
+            fmap.add("%s.location[%d]" % (name, b), len(img), 8)
+            img.extend(struct.pack("<Q", start + b * (META + 2)))
+        return loc
+    NONE = 0xFFFFFFFFFFFFFFFF
+    frag_table = NONE
+    if frag_entries:
+        frag_table = lookup_table(b"".join(struct.pack("<QII", s, w, 0) for s, w in frag_entries), "frag", 16)
+    export_table = NONE
+    if exportable:
+        export_table = lookup_table(b"".join(struct.pack("<Q", _MetaStream.ref(inode_off[p])) for p in order), "export", 8)
+    id_table = lookup_table(b"".join(struct.pack("<I", i & 0xFFFFFFFF) for i in ids), "id", 4)
+    xattr_table = NONE
+    if xsets:
+        kv = _MetaStream()
+        ool = {}
+        setinfo = []
+        for si, xs in enumerate(xsets):
+            startoff = kv.tell()
+            total = 0
+            for k, v in xs:
+                pfx = next(i for i, q in enumerate((b"user.", b"trusted.", b"security.")) if k.startswith(q))
+                name = k[len((b"user.", b"trusted.", b"security.")[pfx]):]
+                if v in ool and len(v) > 8:
+                    kv.put("HH", ["xattr[%d].type" % si, "xattr[%d].name_size" % si], pfx | 0x100, len(name))
+                    kv.raw(name)
+                    kv.put("IQ", ["xattr[%d].ool_size" % si, "xattr[%d].ool_ref" % si], 8, _MetaStream.ref(ool[v]))
+                    total += 4 + len(name) + 4 + 8
+                else:
+                    kv.put("HH", ["xattr[%d].type" % si, "xattr[%d].name_size" % si], pfx, len(name))
+                    kv.raw(name)
+                    ool.setdefault(v, kv.tell())
+                    kv.put("I", ["xattr[%d].value_size" % si], len(v))
+                    kv.raw(v)
+                    total += 4 + len(name) + 4 + len(v)
+            setinfo.append((_MetaStream.ref(startoff), len(xs), total))
+        kv_start = len(img)
+        img.extend(kv.serialise())
+        kv.export_marks(kv_start, fmap, "")
+        idraw = b"".join(struct.pack("<QII", r, c, s) for r, c, s in setinfo)
+        s = _MetaStream()
+        for i, (r, c, sz) in enumerate(setinfo):
+            s.put("QII", ["xattr_id[%d].ref" % i, "xattr_id[%d].count" % i, "xattr_id[%d].size" % i], r, c, sz)
+        idstart = len(img)
+        img.extend(s.serialise())
+        s.export_marks(idstart, fmap, "")
+        xattr_table = len(img)
+        fmap.add("xattr_table.kv_start", len(img), 8)
+        fmap.add("xattr_table.count", len(img) + 8, 4)
+        img.extend(struct.pack("<QII", kv_start, len(setinfo), 0))
+        for b in range((len(idraw) + META - 1) // META):
+            fmap.add("xattr_table.location[%d]" % b, len(img), 8)
+            img.extend(struct.pack("<Q", idstart + b * (META + 2)))
+    bytes_used = len(img)
+    flags = F_UNCOMP_INODES | F_UNCOMP_FRAGS | F_UNCOMP_XATTRS | F_UNCOMP_IDS | F_DUPLICATES
+    if not compress_data:
+        flags |= F_UNCOMP_DATA
+    if exportable:
+        flags |= F_EXPORTABLE
+    if not xsets:
+        flags |= F_NO_XATTRS
+    if not frag_entries:
+        flags |= F_NO_FRAGS
+    if comp_opts:
+        flags |= F_COMP_OPTS
+    log = bs.bit_length() - 1
+    names = ["magic", "inode_count", "mod_time", "block_size", "frag_count", "compressor", "block_log", "flags", "id_count", "vmaj", "vmin",
+             "root", "bytes_used", "id_table", "xattr_table", "inode_table", "dir_table", "frag_table", "export_table"]
+    fmt = "IIIIIHHHHHHQQQQQQQQ"
+    vals = [MAGIC, len(order), mod_time, bs, len(frag_entries), comp, log, flags, len(ids), 4, 0, _MetaStream.ref(inode_off[b""]), bytes_used,
+            id_table, xattr_table, inode_table, dir_table, frag_table, export_table]
+    img[0:96] = struct.pack("<" + fmt, *vals)
+    pos = 0
+    for ch, nm in zip(fmt, names):
+        sz = struct.calcsize("<" + ch)
+        fmap.add("sb." + nm, pos, sz)
+        pos += sz
+    if dev_pad and len(img) % dev_pad:
+        img.extend(bytes(dev_pad - len(img) % dev_pad))
+    info = {"inode_off": inode_off, "number": number, "order": order, "inode_table": inode_table, "dir_table": dir_table,
+            "dir_pos": dir_pos, "ref": {p: _MetaStream.ref(o) for p, o in inode_off.items()}, "bytes_used": bytes_used}
+    return bytes(img), fmap, info
+
+
+def _nm(p):
+    return (p.decode("latin1") if p else "/")[:40]
+
+
+def patch(img, off, size, value):
+    b = bytearray(img)
+    b[off:off + size] = (value & ((1 << (8 * size)) - 1)).to_bytes(size, "little")
+    return bytes(b)
